@@ -136,8 +136,8 @@ pub mod http {
     pub enum HV { Static(Seq<char>), Fmt(Seq<char>, Seq<u64>), Date(crate::stub::SystemTime), Opaque(Seq<u8>) }
     pub struct HeaderValue { pub v: Ghost<HV>, pub bytes: Vec<u8> }
     pub struct ToStrError;
-    /// `HeaderValue::to_str`: Some(string) iff every byte is visible ASCII (assumed contract on http).
-    pub uninterp spec fn sp_to_str(b: Seq<u8>) -> Option<crate::strs::Str>;
+    /// `HeaderValue::to_str`: Some(the same bytes as a string) iff every byte is visible ASCII or HTAB (assumed contract on http).
+    pub open spec fn sp_to_str(b: Seq<u8>) -> Option<crate::strs::Str> { if crate::strs::is_visible(b) { Some(crate::strs::mk(b)) } else { None } }
     impl HeaderValue {
         /// Request-side values are opaque bytes.
         pub open spec fn wf(&self) -> bool { self.v@ == HV::Opaque(self.bytes@) }
